@@ -3,6 +3,7 @@ import OsloPolicy.Model.Enforce
 import OsloPolicy.Spec.Grammar
 import OsloPolicy.Model.Validate
 import OsloPolicy.Model.Loader
+import OsloPolicy.Model.Sched
 import OsloPolicy.Generated.PyTables
 /-
 JSON-lines driver: one request per line on stdin, one answer per line on stdout.
@@ -277,6 +278,21 @@ def handle (j : Json) : Except String Json := do
     let i : PickInput := ⟨ctor, s2l (getStrD j "value"), getBoolD j "never_configured", getBoolD j "yaml_exists",
       getBoolD j "json_exists", getBoolD j "fallback"⟩
     pure (Json.mkObj [("file", l2s (pickPolicyFile i))])
+  | "sched" =>
+    let cont (k : String) : Sched.Content := (getArrD j k).toList.filterMap fun p => match p with
+      | .arr #[n, .bool b] => (match n.getNat? with | .ok i => some (i, b) | _ => none)
+      | _ => none
+    let dflt := getNatD j "default"
+    let qry := getNatD j "query"
+    let sc : Sched.Scenario := ⟨cont "main_new", cont "dirs_new", cont "regs", some dflt, qry⟩
+    let ms := getBoolD j "main_stale"
+    let ds := getBoolD j "dir_stale"
+    let s0 : Sched.Shared := ⟨Sched.compute sc (cont "main_old") (cont "dirs_old"), ms, ds⟩
+    let shw (o : Option Bool) : Json := match o with
+      | some true => "allow" | some false => "deny" | none => "none"
+    let bs := Sched.readerOutcomes sc s0
+    let as := ((List.range (Sched.span sc + 1)).map fun k => (Sched.oneSwitch sc s0 k).1).eraseDups
+    pure (Json.mkObj [("outcomes", .arr ((bs ++ as).eraseDups.map shw).toArray)])
   | "spec_den" => do
     -- {"e": <stratified expression>, "assign": [[true leaf texts…]…]} ↦ Boolean value of the
     -- sentence under each assignment, computed by Spec.Grammar (not by the parser model)
